@@ -689,6 +689,12 @@ func (x *CommonLex) Next() rune {
 	if c == utf8.RuneError && size == 1 {
 		return xutils.ERR
 	}
+	if c == 0 {
+		// A NUL character in the input has the value of xutils.EOF: it
+		// must not end the expression silently, it is not a character
+		// of any expression.
+		return xutils.ERR
+	}
 	return c
 }
 
